@@ -760,7 +760,11 @@ class SymEx:
         rng = self.eval(n["range"], env, fn)
         ty = fn.ntype(n["range"]) or ""
         m = re.search(r"\[(\d+)\]", ty)
-        if not isinstance(rng, Loc) or not m or "<" in ty.split("[")[0]:
+        if m and "<" in ty.split("[")[0]:
+            m = None
+        if m is None:
+            m = re.search(r"^(?:const )?std::array<.*, (\d+)>(?: &| const &)?$", ty.strip())      # std::array<T, N> = T[N]
+        if not isinstance(rng, Loc) or not m:
             raise NotClosedForm("range-for over %s, which is not a built-in array of constant extent (%s:%s)" % (ty or "?", fn.file, n.get("l")))
         var = n.get("var") or {}
         vty = fn.type(var["t"]) if var.get("t") is not None else ""
@@ -808,7 +812,7 @@ class SymEx:
             return
         x = self.eval(init, env, fn)
         if init.get("k") == "InitList" and isinstance(x, list):
-            if len(x) == 1 and not ty.rstrip().endswith("]"):
+            if len(x) == 1 and not ty.rstrip().endswith("]") and not isinstance(x[0], list) and "std::array<" not in ty:
                 x = x[0]      # `T v{expr};`
                 init = (init.get("a") or [init])[0]
             else:
@@ -957,7 +961,12 @@ class SymEx:
         if k in ("Construct", "TempObj"):
             return self.construct(n, env, fn, None)
         if k == "InitList":
-            return [self.eval(a, env, fn) for a in n.get("a", [])]
+            a = n.get("a", [])
+            ty = (fn.ntype(n) or "").replace("const ", "").strip()
+            if ty.startswith("std::array<") and len(a) == 1 and a[0].get("k") == "InitList" and not (fn.ntype(a[0]) or "").replace("const ", "").strip().startswith("std::array<"):
+                # std::array<T, N>{{ ... }}: the inner braces initialise the wrapped built-in array
+                return self.eval(a[0], env, fn)
+            return [self.eval(x, env, fn) for x in a]
         if k == "Lambda":
             # the closure object; its call operator is inlined at the call with the defining frame's variables visible
             return self.new_temp("LAMBDA")
@@ -1115,6 +1124,10 @@ class SymEx:
             return Poly.const(abs(c))
         if callee in ("FEAT::assertion",):
             return None
+        if callee.startswith("std::array<"):
+            r = self.std_array(callee, n, env, fn)
+            if r is not NotImplemented:
+                return r
         if k == "Call" and strip_targs(callee) in ("FEAT::Math::min", "FEAT::Math::max") and len(n.get("a", [])) == 2:
             return self.std_algorithm("std::" + strip_targs(callee).rsplit("::", 1)[-1], n, env, fn)
         if k == "Call" and callee.startswith("std::"):
@@ -1171,6 +1184,52 @@ class SymEx:
                     return r
             raise NotClosedForm("callee %s has no body in the fact base and is not modelled (%s:%s)" % (callee, fn.file, n.get("l")))
         return self.inline(target, this_loc, args_n, env, fn, n)
+
+    def std_array(self, callee, n, env, fn):
+        """std::array<T, N> is the built-in array T[N]: operator[] / at / front / back address its cells, data / begin / end are
+        cursors into it, size / max_size / empty fold, fill writes every cell"""
+        m = re.search(r", (\d+)>::(operator\[\]|\w+)$", callee)
+        if not m:
+            return NotImplemented
+        ext, name = int(m.group(1)), m.group(2)
+        args = list(n.get("a", []))
+        if n["k"] == "OpCall":
+            if not args:
+                return NotImplemented
+            obj = self.deref(self.eval(args[0], env, fn))
+            args = args[1:]
+        elif n["k"] == "MCall":
+            o = n.get("obj")
+            obj = self.eval(o, env, fn) if o is not None else env.get("this")
+            if o is not None and n.get("arrow"):
+                obj = self.deref(obj)
+        else:
+            return NotImplemented
+        if not isinstance(obj, Loc):
+            return NotImplemented
+        if name in ("operator[]", "at") and len(args) == 1:
+            return obj.child(self.index_elem(self.eval(args[0], env, fn)))
+        if name == "front" and not args:
+            return obj.child(0)
+        if name == "back" and not args:
+            return obj.child(ext - 1)
+        if name in ("data", "begin", "cbegin") and not args:
+            return Ptr(obj, Poly.const(0))
+        if name in ("end", "cend") and not args:
+            return Ptr(obj, Poly.const(ext))
+        if name in ("size", "max_size") and not args:
+            return Poly.const(ext)
+        if name == "empty" and not args:
+            return Poly.const(1 if ext == 0 else 0)
+        if name == "fill" and len(args) == 1:
+            v = self.eval(args[0], env, fn)
+            for i in range(ext):
+                if isinstance(v, Loc):
+                    self.copy_agg(obj.child(i), v, n.get("l"))
+                else:
+                    self.write(obj.child(i), self.rv(v), n.get("l"))
+            return None
+        return NotImplemented
 
     def _range(self, first, last, what):
         """[first, last) as (array Loc, lo, hi) with constant integer offsets"""
@@ -1809,6 +1868,7 @@ class _PathEx(SymEx):
         self.accepted = False
         self.nabs = 0
         self.in_abs = False
+        self.elem_root = "ELEM"
 
     def exec(self, n, env, fn):
         # acceptance mode: a loop whose bound is not a constant (the loop over the candidates) is entered for ONE arbitrary
@@ -1848,6 +1908,20 @@ class _PathEx(SymEx):
                     if n.get("inc") is not None:
                         self.eval(n["inc"], env, fn)
                     c = n.get("c") is None or self.truth(self.eval(n["c"], env, fn))
+                return
+        if self.accept is not None and not self.in_abs and n is not None and n.get("k") == "ForRange" and len(self.frame_roots) == 0:
+            # range-for over the candidates (a container of unknown length): one arbitrary element
+            ty = fn.ntype(n["range"]) or ""
+            if not re.search(r"\[(\d+)\]$", ty.strip()) and "std::array<" not in ty:
+                var = n.get("var") or {}
+                env[var["d"]] = Loc(self.elem_root)
+                self.in_abs = True
+                try:
+                    self.exec(n["body"], env, fn)
+                except (_Break, _Continue):
+                    pass
+                finally:
+                    self.in_abs = False
                 return
         return super().exec(n, env, fn)
 
@@ -2044,7 +2118,8 @@ class PredEx:
 
     MAX_PATHS = 512
 
-    def __init__(self, facts_list, opaque=None, accept=None):
+    def __init__(self, facts_list, opaque=None, accept=None, elem_root="ELEM"):
+        self.elem_root = elem_root      # acceptance mode: name of the arbitrary element of a range-for over the candidates
         self.facts_list = facts_list
         self.opaque = opaque
         self.accept = accept    # acceptance mode: the predicate is "the call accept(...) is reached in one arbitrary iteration of
@@ -2059,6 +2134,7 @@ class PredEx:
         while todo:
             dec = todo.pop()
             px = _PathEx(self.facts_list, self.opaque, dec, accept=self.accept)
+            px.elem_root = self.elem_root
             ret = px.run(fn, args=args, this=this, prefix=prefix)
             self.npaths += 1
             if self.npaths > self.MAX_PATHS:
